@@ -705,6 +705,46 @@ func GenOps(e *Exec, args []string) {
 			emit(J{"op": "copyFrom", "type": t.Name, "tf": EncodeTf(malform(r, o, 15)), "prior": "zero", "tag": "from-malformed"})
 			emit(J{"op": "copyFrom", "type": t.Name, "tf": EncodeTf(malform(r, o, 40)), "prior": genGo(Mode{ZeroPct: 30}), "tag": "from-malformed"})
 		}
+		// C08 / C05: one-hot plans – exactly one attribute of the root object unknown (resp. known), all others null:
+		// a value that has nothing known next to it (e.g. the only planned attribute of a nullable embedded message)
+		{
+			ks := make([]string, 0, len(ot.AttrTypes))
+			for k := range ot.AttrTypes {
+				ks = append(ks, k)
+			}
+			sort.Strings(ks)
+			budget := 10 * scale
+			step := 1
+			if len(ks) > budget {
+				step = len(ks) / budget
+			}
+			for i, n := r.Intn(step), 0; i < len(ks) && n < budget+2; i, n = i+step, n+1 {
+				for _, unknown := range []bool{true, false} {
+					vals := map[string]tftypes.Value{}
+					for _, k := range ks {
+						at := ot.AttrTypes[k]
+						switch {
+						case k != ks[i]:
+							vals[k] = tftypes.NewValue(at.TerraformType(e.ctx), nil)
+						case unknown:
+							vals[k] = tftypes.NewValue(at.TerraformType(e.ctx), tftypes.UnknownValue)
+						default:
+							vals[k] = GenTfValue(r, at, PlanMode{KeepObjects: true}, 1)
+						}
+					}
+					v, err := ot.ValueFromTerraform(e.ctx, tftypes.NewValue(ot.TerraformType(e.ctx), vals))
+					if err != nil {
+						continue
+					}
+					enc := EncodeTf(exclusive(r, v, groups))
+					emit(J{"op": "seq", "type": t.Name, "tf": enc, "obj": "zero", "tag": "echo", "grp": "onehot",
+						"steps": []interface{}{J{"do": "from"}, J{"do": "to"}, J{"do": "from"}}})
+					if n%3 == 0 {
+						emit(J{"op": "copyFrom", "type": t.Name, "tf": enc, "prior": genGo(Mode{ZeroPct: 0}), "tag": "from", "grp": "onehot"})
+					}
+				}
+			}
+		}
 		// C06: exactly one malformation per object, walking through the sites (attributes and elements at every depth)
 		if base, ok := genPlan(PlanMode{NullPct: 3, KeepObjects: true}); ok {
 			total := 0
